@@ -70,7 +70,7 @@ func C13(env *Env) {
 		return
 	}
 	for name, want := range pckOIDs {
-		g, _ := sp.Members[name].(*ssa.Global)
+		g := env.P.Global("pcs", name)
 		if g == nil {
 			r.Fail("C13/OID", name, "", "pcs."+name+" not found")
 			continue
